@@ -735,6 +735,140 @@ def run_block_gap(cx, case):
         pair.close()
 
 
+class Wire(secsgem.common.Connection):
+    """a FOREIGN sender's line: the harness writes the bytes itself and reads the endpoint's control bytes"""
+
+    def __init__(self, settings):
+        super().__init__(settings)
+        self.sent = []
+        self.cv = threading.Condition()
+
+    def enable(self):
+        pass
+
+    def disable(self):
+        pass
+
+    def send_data(self, data):
+        with self.cv:
+            self.sent.extend(bytes(data))
+            self.cv.notify_all()
+        return True
+
+    def take(self):
+        """next control byte the endpoint wrote (EOT / ACK / NAK), or None after the stall budget"""
+        with self.cv:
+            if not self.cv.wait_for(lambda: len(self.sent) > 0, deadline()):
+                STALLS[0] += 1
+                STALL_LOG.append("control byte from the endpoint")
+                return None
+            return self.sent.pop(0)
+
+
+class WS(SecsISettings):
+    def create_connection(self):
+        self.conn = Wire(self)
+        return self.conn
+
+
+def run_foreign_sender(cx, case):
+    """a foreign (non-secsgem) sender plays ENQ / block after EOT against ONE real SecsIProtocol: multi-block messages whose NON-final blocks
+    carry fewer than 244 bytes (legal in E4: only the E-bit ends a message), optionally two messages interleaved.
+    Oracle: every ACKed block sequence of a message whose last block has the E-bit is delivered exactly once, intact."""
+    from secsgem.secsi.header import SecsIHeader
+    res, rng = cx.res, cx.rng
+    role = secsgem.common.DeviceType.HOST if case["endpoint"] == "host" else secsgem.common.DeviceType.EQUIPMENT
+    proto = SecsIProtocol(WS(port="F", device_type=role, device_id=5))
+    wire = proto._connection
+    got = []
+    proto.events.message_received += lambda d: got.append(d["message"])
+    busy = {"n": 0}
+    lock = threading.Lock()
+
+    def wrap(orig):
+        def run(*a):
+            with lock:
+                busy["n"] += 1
+            try:
+                return orig(*a)
+            finally:
+                with lock:
+                    busy["n"] -= 1
+        return run
+
+    proto._thread._receiver_target = wrap(proto._thread._receiver_target)
+    proto._thread._dispatcher_target = wrap(proto._thread._dispatcher_target)
+    wire.on_connected({"source": wire})
+    from_eq = case["endpoint"] == "host"  # the peer is the other role
+    msgs = []
+    for mi, sizes in enumerate(case["sizes"]):
+        body = hlib.Rng(case["body_seed"] + mi).bytes(sum(sizes))
+        system = (case["system"] + mi) % 2 ** 32
+        blocks, pos = [], 0
+        for k, n in enumerate(sizes):
+            h = SecsIHeader(system, 5, 7, 2 * mi + 1, k + 1, require_response=False, from_equipment=from_eq, last_block=(k == len(sizes) - 1))
+            blocks.append(SecsIBlock(h, body[pos:pos + n]))
+            pos += n
+        msgs.append((system, body, blocks))
+    # line order: sequential, or the blocks of the messages alternating
+    order = []
+    if case["interleave"]:
+        idx = [0] * len(msgs)
+        while any(idx[i] < len(msgs[i][2]) for i in range(len(msgs))):
+            for i in range(len(msgs)):
+                if idx[i] < len(msgs[i][2]):
+                    order.append(msgs[i][2][idx[i]])
+                    idx[i] += 1
+    else:
+        for m in msgs:
+            order += m[2]
+    accepted, answers = [], []
+    for blk in order:
+        wire.on_data({"source": wire, "data": bytes([ENQ])})
+        a1 = wire.take()
+        if a1 != EOT:
+            answers.append(("no EOT", a1))
+            break
+        raw = bytes(blk.encode())
+        for i in range(0, len(raw), case["chunk"]):
+            wire.on_data({"source": wire, "data": raw[i:i + case["chunk"]]})
+        a2 = wire.take()
+        answers.append(a2)
+        if a2 == ACK:
+            accepted.append(blk)
+        elif a2 is None:
+            break
+
+    def quiet():
+        th = proto._thread
+        return not (busy["n"] or th._dispatch_queue.qsize() or th._dispatcher_thread_trigger.is_set() or th._receiver_thread_trigger.is_set())
+
+    wait_until(lambda: quiet() and (time.sleep(0) or quiet()), "quiescence of the endpoint fed by the foreign sender")
+    small = dict(case, answers=["ACK" if a == ACK else ("NAK" if a == NAK else repr(a)) for a in answers],
+                 delivered=[(m.header.system, m.header.function, len(m.data), len(m.blocks)) for m in got])
+    res.count(("foreign", case["endpoint"], tuple(map(tuple, case["sizes"])), case["interleave"], case["chunk"]), sample=small if case.get("sample") else None)
+    res.bump("foreign_sender", ("interleaved " if case["interleave"] else "") + "/".join(str(len(z)) for z in case["sizes"]) + " blocks, short non-final blocks")
+    if any(a != ACK for a in answers):
+        res.violate("c17-good-block-refused", "a valid block of a foreign sender was not acknowledged with ACK", small, "ACK", small["answers"])
+    for (system, body, blocks) in msgs:
+        if all(b in accepted for b in blocks):
+            mine = [m for m in got if m.header.system == system]
+            if len(mine) != 1 or bytes(mine[0].data) != body or len(mine[0].blocks) != len(blocks) or bool(mine[0].header.from_equipment) != from_eq:
+                res.violate("c17-not-delivered-intact", "a multi-block message of a foreign sender whose non-final blocks carry fewer than 244 bytes: every block "
+                            "was ACKed, the last one has the E-bit, but the message was not delivered exactly once, intact", small,
+                            {"system": system, "len": len(body), "blocks": len(blocks)}, [(m.header.system, len(m.data), len(m.blocks)) for m in mine])
+    if len(got) > len(msgs):
+        res.violate("c17-not-delivered-intact", "more messages were delivered than were sent", small, len(msgs), len(got))
+    if cx.drv.available and accepted:
+        line = "secsi reasm " + " ".join(show_block(b) for b in accepted)
+        impl = "ok " + ";".join(show_block_hdr(m.header) + " " + hexs(bytes(m.data)) + " n=" + str(len(m.blocks)) for m in got)
+        ans = hlib.strip_branch(cx.drv.run([line])[0]).split(" | pending=")[0]
+        res.traces_validated += 1
+        res.driver_used = True
+        if ans != impl:
+            res.disagree("foreign sender: messages delivered vs Model.SecsI.reassemble (C16) of the accepted blocks", {"case": small}, ans[:500], impl[:500])
+
+
 def run_same_system(cx, case):
     """consecutive messages in ONE direction with EQUAL system bytes (the peer re-uses the system bytes of a closed transaction; with
     `send_response` the caller chooses them).  Oracle: every message whose send returned True is delivered exactly once, intact, in order."""
@@ -922,6 +1056,8 @@ def main():
                     guarded(cx, run_concurrent_fault, {k: v for k, v in c.items() if k not in ("damaged_function", "results", "accepted", "delivered")})
             elif isinstance(c, dict) and c.get("part") == "block-gap":
                 guarded(cx, run_block_gap, {k: v for k, v in c.items() if k not in ("returned", "acked_blocks", "delivered")})
+            elif isinstance(c, dict) and c.get("part") == "foreign-sender":
+                guarded(cx, run_foreign_sender, {k: v for k, v in c.items() if k not in ("answers", "delivered")})
             elif isinstance(c, dict) and c.get("part") == "same-system":
                 guarded(cx, run_same_system, {k: v for k, v in c.items() if k not in ("results", "delivered")})
             elif isinstance(c, dict) and c.get("part") == "preempted-resolve":
@@ -1017,6 +1153,16 @@ def main():
             c = {"part": "block-gap", "dir": rng.choice(["H2E", "E2H"]), "body_len": n, "body_seed": rng.below(2 ** 31), "stream": 7, "function": 3,
                  "system": rng.range(1, 2 ** 32 - 1), "chunks": rng.choice([[1000], [50]]), "t4": 0.2, "gap": 0.5, "after_blocks": after, "sample": k == 0}
             guarded(cx, run_block_gap, c)
+        # a foreign sender: multi-block messages whose non-final blocks are shorter than 244 bytes, also interleaved
+        for k in range(10 if cx.big else 5):
+            n_msgs = 1 if k % 2 == 0 else 2
+            sizes = [[rng.range(1, 243)] + [rng.range(0, 244) for _ in range(rng.range(0, 2))] + [rng.range(0, 244)] for _ in range(n_msgs)]
+            if k == 0:
+                sizes = [[100, 244, 7]]
+            c = {"part": "foreign-sender", "endpoint": rng.choice(["host", "equipment"]), "sizes": sizes, "interleave": n_msgs == 2 and bool(rng.below(2)),
+                 "body_seed": rng.below(2 ** 31), "system": rng.choice([9, 2 ** 32 - 1, rng.range(1, 2 ** 32 - 3)]), "chunk": rng.choice([1000, 7, 1]),
+                 "sample": k == 0}
+            guarded(cx, run_foreign_sender, c)
         # the thread resolving the send result is preempted right after it signalled the event
         for k, fault in enumerate([True, False, True]):
             c = gen_case(rng, rng.choice([0, 0, 7]))
